@@ -156,6 +156,12 @@ def gen_c05(ctx, quick):
     if quick and len(cases) > 140:
         ctx.rng.shuffle(cases)
         cases = cases[:140]
+    # the monitor reports a replica that is still rebuilding (WO), with an error and with nil: it is detached
+    for rf in (2, 3):
+        es = boot(rf, 0, list(range(1, rf - 1))) + add(rf - 1, verify=False)
+        for nil in (False, True):
+            cases.append(dict(rf=rf, world=world(rf), events=es + [ev("write", wid=1, off=0, len=4096), ev("monfail", a=rf - 1, nilerr=nil),
+                                                                  ev("write", wid=2, off=0, len=4096), ev("read", off=0, len=4096)] + add(rf - 1)))
     # a replica marked failed (mode request, snapshot or resize failure) that is asked to be RW again before its
     # monitor removes it: it stays failed and comes back only through remove + add
     for rf in (2, 3):
